@@ -32,6 +32,12 @@ AddOffsSub == {<<0, 999999000>>, <<0, 999997441>>, <<1, 0>>}
 RunOffsSub == {<<0, 999998000>>, <<0, 999997440>>, <<0, 999999999>>}
 AddOffsLong == {<<20, 0>>, <<40000, 0>>, <<50000, 0>>, <<70000, 0>>, <<140000, 0>>}
 RunOffsLong == {<<10, 0>>, <<33000, 0>>, <<45000, 0>>, <<100000, 0>>}
+\* Min timer pulled in to an instant between its queued 75% hop and its expiry, then runs inside that window
+AddOffsMinUpd == {<<60, 0>>, <<52, 0>>, <<47, 0>>}
+RunOffsMinUpd == {<<50, 0>>, <<3, 0>>}
+\* fixed timers given the identical instant (well inside the 32767 s range) after earlier ones have fired
+AddOffsSame == {<<3000, 0>>}
+RunOffsSame == {<<3001, 0>>}
 AddOffsNear == {<<32766, 200000000>>, <<32766, 500000000>>, <<32766, 900000000>>, <<32767, 100000000>>}
 RunOffsNear == {<<0, 900000000>>, <<40000, 0>>}
 =============================================================================
